@@ -174,6 +174,15 @@ static std::string fnptrtype(FunctionType* ft) {
   return o.str();
 }
 
+// function types of indirect calls seen so far (for virtual dispatch: which vtable entries can be targets)
+static std::vector<FunctionType*> indirectTypes;
+static bool fnTypeCompatible(FunctionType* a, FunctionType* b) {
+  if (a->getNumParams() != b->getNumParams() || a->isVarArg() != b->isVarArg()) return false;
+  auto same = [](Type* x, Type* y) { return (x->isPointerTy() && y->isPointerTy()) || x == y; };
+  if (!same(a->getReturnType(), b->getReturnType())) return false;
+  for (unsigned i = 0; i < a->getNumParams(); i++) if (!same(a->getParamType(i), b->getParamType(i))) return false;
+  return true;
+}
 // ---- reachability ----
 static std::set<const Function*> needF;
 static std::set<const GlobalVariable*> needG;
@@ -501,6 +510,7 @@ struct FnEmitter {
       out << "  " << lhs << gname(callee) << "(" << args.str() << ");\n";
     } else {
       if (ci.isInlineAsm()) { out << "  /* inline asm ignored */\n"; return; }
+      indirectTypes.push_back(ci.getFunctionType());
       out << "  " << lhs << "((" << fnptrtype(ci.getFunctionType()) << ")" << val(ci.getCalledOperand()) << ")(" << args.str() << ");\n";
     }
   }
@@ -848,6 +858,7 @@ int main(int argc, char** argv) {
   std::vector<const Function*> defined, external;
   std::ostringstream gdefs, ginit, gfwd, gearly;
   struct LR { std::string g; uint64_t off; const Function* f; }; std::vector<LR> lazyrel;
+  for (bool again = true; again;) {
   while (!workF.empty() || !workG.empty()) {
     while (!workF.empty()) {
       const Function* f = workF.front(); workF.pop_front();
@@ -901,6 +912,13 @@ int main(int argc, char** argv) {
       }
       for (auto& r : rel) { if (r.lazy) lazyrel.push_back({n, r.off, r.lazy}); else ginit << "  *(uint64_t*)(" << n << "+" << r.off << ") = (uint64_t)" << r.expr << ";\n"; }
     }
+  }
+  // virtual dispatch: a vtable entry is a possible target of an indirect call with a compatible signature
+  again = false;
+  for (auto& lr : lazyrel) {
+    if (needF.count(lr.f) || lr.f->isDeclaration()) continue;
+    for (auto* ft : indirectTypes) if (fnTypeCompatible(ft, lr.f->getFunctionType())) { needfn(lr.f); again = true; break; }
+  }
   }
   for (auto& lr : lazyrel) if (needF.count(lr.f) && !lr.f->isDeclaration()) ginit << "  *(uint64_t*)(" << lr.g << "+" << lr.off << ") = (uint64_t)&" << gname(lr.f) << ";\n";
   printf("/* generated by ll2c from %s */\n#include <stdint.h>\n#include <stddef.h>\n#include \"ll2c_rt.h\"\n", argv[1]);
